@@ -33,12 +33,26 @@ type chanObs struct {
 // runWithChannel calls f with a fresh event channel, a consumer goroutine draining it, and a second
 // consumer turning a copy of the events into milestones with the library's own generator.
 func runWithChannel(f func(ch *chan events.Event) (string, error)) chanObs {
-	ch := make(chan events.Event, 64)
+	return runWithConsumer(f, -1, -1, 0)
+}
+
+// runWithConsumer: capacity < 0 means a generous buffer; the consumer sleeps stallMs once it has received stallAt events
+func runWithConsumer(f func(ch *chan events.Event) (string, error), capacity, stallAt, stallMs int) chanObs {
+	if capacity < 0 {
+		capacity = 64
+	}
+	ch := make(chan events.Event, capacity)
 	drained := make(chan []events.Event, 1)
 	go func() {
 		var evs []events.Event
+		if stallAt == 0 {
+			time.Sleep(time.Duration(stallMs) * time.Millisecond)
+		}
 		for ev := range ch {
 			evs = append(evs, ev)
+			if len(evs) == stallAt {
+				time.Sleep(time.Duration(stallMs) * time.Millisecond)
+			}
 		}
 		drained <- evs
 	}()
